@@ -160,6 +160,10 @@ func genC16() string {
 			case token.EQL:
 				id, ok1 := x.X.(*ast.Ident)
 				lit, ok2 := x.Y.(*ast.BasicLit)
+				if !ok1 || !ok2 { // "lit" == name
+					id, ok1 = x.Y.(*ast.Ident)
+					lit, ok2 = x.X.(*ast.BasicLit)
+				}
 				if !ok1 || !ok2 || id.Name != vparams[0] || lit.Kind != token.STRING {
 					fail("%s: validatePluginName: unrecognised comparison %s", mfile, exprText(x))
 				}
@@ -266,6 +270,17 @@ func genC16() string {
 	fmt.Fprintf(&b, "/-- `CLIManager.Install` validates the derived plugin name in a top-level guard before `NewCLIPlugin`,\n`m.Get`, `m.Uninstall`, `SysPath` and the copy, and these calls use that same variable -/\ndef c16InstallValidatesBeforeUse : Bool := %s\n\n", leanBool(instOK))
 	fmt.Fprintf(&b, "/-- callees of `CLIManager.Install` that touch the file system or run a process, in source order -/\ndef c16InstallCallees : List String := %s\n\n",
 		leanStrList(calleeList(in.Body, "parsePluginFromDir", "parsePluginName", "isExecutableFile", "validatePluginName", "NewCLIPlugin", "m.Get", "m.Uninstall", "m.pluginFS.", "file.CopyToDir", "file.CopyDirToDir")))
+
+	// ---- the executable bit of a lone non-executable candidate is set by Install after the guard,
+	// never by parsePluginFromDir (which runs before the name is known to be acceptable)
+	ppd := mustFunc(mf, mfile, "", "parsePluginFromDir")
+	chmodLate := guardPos != token.NoPos && len(callsIn(ppd.Body, "setExecutable", "os.Chmod")) == 0
+	for _, c := range callsIn(in.Body, "setExecutable", "os.Chmod") {
+		if c.Pos() < guardPos {
+			chmodLate = false
+		}
+	}
+	fmt.Fprintf(&b, "/-- no `setExecutable` / `os.Chmod` in `parsePluginFromDir`, and in `Install` only after the name guard -/\ndef c16SetExecutableAfterValidation : Bool := %s\n\n", leanBool(chmodLate))
 
 	// ---- binName / parsePluginName (unix) and the prefix
 	const ufile = "plugin/manager_unix.go"
